@@ -219,6 +219,8 @@ struct Source<'a> {
     /// the underlying parser reported its end or an error: it is never polled again
     /// (a deque has no "after the end")
     done: bool,
+    /// the stream ended with a parse error
+    errored: bool,
     events: Rc<RefCell<Vec<Event>>>,
 }
 
@@ -233,7 +235,16 @@ impl Iterator for Source<'_> {
             flag_iofail();
             return Some(Err("@@IOFAIL@@read error".into()));
         }
+        if self.done && self.errored {
+            // a parse error was handed out (and evidently caught by the filter): what a further
+            // poll of the broken stream yields is not specified by anything
+            UNSPEC.with(|p| p.set(true));
+            return None;
+        }
         let item = if self.done { None } else { self.iter.next() };
+        if matches!(item, Some(Err(_))) {
+            self.errored = true;
+        }
         if !matches!(item, Some(Ok(_))) {
             self.done = true;
         }
@@ -461,7 +472,11 @@ pub fn predict(inv: &Invocation, fs: &dyn Fs, stdin: &Stdin) -> Prediction {
         stderr,
         end,
         events: events.borrow().clone(),
-        why,
+        why: if UNSPEC.with(|p| p.get()) {
+            format!("@inconclusive: the input stream was polled again after a parse error had been caught ({why})")
+        } else {
+            why
+        },
         stderr_by_filter,
     };
 
@@ -559,6 +574,7 @@ pub fn predict(inv: &Invocation, fs: &dyn Fs, stdin: &Stdin) -> Prediction {
             fail_after,
             failed: false,
             done: false,
+            errored: false,
             events: events.clone(),
         };
         let boxed: Box<dyn Iterator<Item = Result<Val, String>> + '_> = Box::new(source);
@@ -728,6 +744,7 @@ pub fn predict(inv: &Invocation, fs: &dyn Fs, stdin: &Stdin) -> Prediction {
 thread_local! {
     static PENDING: std::cell::Cell<bool> = const { std::cell::Cell::new(false) };
     static IOFAILED: std::cell::Cell<bool> = const { std::cell::Cell::new(false) };
+    static UNSPEC: std::cell::Cell<bool> = const { std::cell::Cell::new(false) };
 }
 
 fn events_pending<T: ?Sized>(_rc: &RcIter<T>) -> bool {
@@ -741,6 +758,7 @@ fn io_failed<T: ?Sized>(_rc: &RcIter<T>) -> bool {
 pub fn reset_flags() {
     PENDING.with(|p| p.set(false));
     IOFAILED.with(|p| p.set(false));
+    UNSPEC.with(|p| p.set(false));
 }
 
 pub(crate) fn flag_pending() {
